@@ -198,7 +198,9 @@ macro_rules! wt_float {
                 M::F(self as f64)
             }
             fn extras() -> Vec<M> {
-                vec![M::F(-0.0), M::F(f64::NAN), M::F(f64::INFINITY), M::F(<$t>::MIN_POSITIVE as f64), M::F(-1.0)]
+                // (the smallest subnormal: a weight sum that small makes rand's Uniform round up to its bound,
+                // finding C08-alias-subnormal-weight-sum)
+                vec![M::F(-0.0), M::F(f64::NAN), M::F(f64::INFINITY), M::F(<$t>::MIN_POSITIVE as f64), M::F(<$t>::from_bits(1) as f64), M::F(-1.0)]
             }
         }
     };
@@ -649,6 +651,15 @@ where
             fixed.push(v);
         }
     }
+    if W::IS_FLOAT {
+        // vectors whose sum is subnormal or the smallest normal: rand's Uniform over [0, sum) can round up to the
+        // bound there (finding C08-alias-subnormal-weight-sum)
+        let sub = if W::NAME == "f32" { f32::from_bits(1) as f64 } else { f64::from_bits(1) };
+        let mp = if W::NAME == "f32" { f32::MIN_POSITIVE as f64 } else { f64::MIN_POSITIVE };
+        for v in [vec![sub], vec![sub, 0.0, sub], vec![sub, 3.0 * sub], vec![mp], vec![mp, sub, 0.0], vec![0.0, 7.0 * sub, 2.0 * sub, 0.0, sub]] {
+            fixed.push(v.into_iter().map(M::F).collect());
+        }
+    }
     let nfixed = fixed.len();
     for vi in 0..(vectors + nfixed) {
         let ws = if vi < nfixed {
@@ -679,6 +690,8 @@ where
         // (a) frequencies
         let probs = probs_of(&ws);
         let (rho_abs, rho_rel) = if W::IS_FLOAT { (2.0 * if W::NAME == "f32" { 2f64.powi(-23) } else { 2f64.powi(-52) }, 8.0 * len as f64 * W::feps()) } else { (2f64.powi(-50), 0.0) };
+        // sums below MIN_POSITIVE / eps: the uniform level in [0, sum) has fewer than 1/eps distinct values
+        let tiny_sum = W::IS_FLOAT && ws.iter().map(|m| m.f()).sum::<f64>() < (if W::NAME == "f32" { f32::MIN_POSITIVE as f64 } else { f64::MIN_POSITIVE }) / W::feps();
         let judge = |n: u64, seed: u64| -> Result<Option<(usize, f64, f64, f64)>, String> {
             let counts = sample_counts(&d, len, n, seed)?;
             if counts[len] > 0 {
@@ -689,8 +702,16 @@ where
                     return Err(format!("zero-weight index {} returned {} times", i, counts[i]));
                 }
             }
+            if tiny_sum {
+                // the level draw lives on the subnormal grid: w_i / sum has no relative precision to speak of, the
+                // frequency clause is not judged (the index clauses above are)
+                return Ok(None);
+            }
             Ok(freq_reject(&counts[..len], &probs, (n / 16) * 16, rho_abs, rho_rel))
         };
+        if tiny_sum {
+            ctx.class("c08:frequency_not_judged_subnormal_scale_sum", 1);
+        }
         match judge(n, seed) {
             Err(m) if m.starts_with("skipped") => ctx.class("c08:frequency_runs_skipped_after_hang", 1),
             Err(m) => viol(ctx, "WeightedAliasIndex", W::NAME, if m.starts_with("hang") { "hang" } else if m.contains("panic") { "panic" } else { "bad_index" }, "random_stream", format!("WeightedAliasIndex<{}> {}: {}", W::NAME, show(&ws), m), json!({"kind": "alias_sample", "alias": AliasCase { wt: W::NAME.into(), ws: ws.clone() }, "n": n})),
@@ -2057,6 +2078,27 @@ macro_rules! dispatch_wt {
     };
 }
 
+/// one sample() of the alias table under a forced word: index in range, weight non-zero, no panic
+fn replay_alias_stream<W: Wt>(ctx: &Ctx, ws: &[M], pos: u64, word: u64, seed: u64) {
+    let input: Vec<W> = ws.iter().map(|&m| W::from_m(m)).collect();
+    let d = match catch(|| WeightedAliasIndex::<W>::new(input)) {
+        Ok(Ok(d)) => d,
+        _ => return,
+    };
+    let mut rng = VRng::from_env(seed);
+    rng.force(pos, word);
+    rng.begin_call();
+    let case = json!({"kind": "alias_stream", "alias": AliasCase { wt: W::NAME.into(), ws: ws.to_vec() }, "pos": pos, "word": word, "seed": seed});
+    match catch(|| Distribution::sample(&d, &mut rng)) {
+        Err(p) => viol(ctx, "WeightedAliasIndex", W::NAME, "panic", crate::streams::word_class(word), format!("WeightedAliasIndex<{}> {} sample panicked: {}", W::NAME, show(ws), p), case),
+        Ok(i) => {
+            if i >= ws.len() || ws[i].is_zero() {
+                viol(ctx, "WeightedAliasIndex", W::NAME, "bad_index", crate::streams::word_class(word), format!("WeightedAliasIndex<{}> {} returned index {} (zero weight or out of range) with word {:#x} at position {}", W::NAME, show(ws), i, word, pos), case);
+            }
+        }
+    }
+}
+
 fn replay_alias<W: Wt>(ctx: &Ctx, ws: &[M]) {
     if let Some((sym, msg)) = alias_structural::<W>(ws) {
         viol(ctx, "WeightedAliasIndex", W::NAME, &sym, vec_class::<W>(ws), msg, json!({"kind": "alias", "alias": AliasCase { wt: W::NAME.into(), ws: ws.to_vec() }}));
@@ -2084,6 +2126,14 @@ pub fn replay(ctx: &Ctx, case: &Value) -> bool {
         "alias" => {
             if let Ok(c) = serde_json::from_value::<AliasCase>(case["alias"].clone()) {
                 dispatch_wt!(c.wt.as_str(), replay_alias(ctx, &c.ws));
+                return true;
+            }
+            false
+        }
+        "alias_stream" => {
+            if let Ok(c) = serde_json::from_value::<AliasCase>(case["alias"].clone()) {
+                let (pos, word, seed) = (case["pos"].as_u64().unwrap_or(0), case["word"].as_u64().unwrap_or(0), case["seed"].as_u64().unwrap_or(0));
+                dispatch_wt!(c.wt.as_str(), replay_alias_stream(ctx, &c.ws, pos, word, seed));
                 return true;
             }
             false
